@@ -5132,6 +5132,25 @@ class PyCdlib:
         if iso_path is None and joliet_path is None and udf_path is None:
             raise pycdlibexception.PyCdlibInvalidInput('Either iso_path or joliet_path must be passed')
 
+        # Make sure the directory can be removed from every one of the given
+        # contexts before it is removed from any of them.
+        if iso_path is not None and joliet_path is not None and self.joliet_vd is not None:
+            joliet_child = self._find_joliet_record(self._normalize_joliet_path(joliet_path))
+            if not joliet_child.is_dir():
+                raise pycdlibexception.PyCdlibInvalidInput('Cannot remove a file with rm_directory (try rm_file instead)')
+            if len(joliet_child.children) > 2:
+                raise pycdlibexception.PyCdlibInvalidInput('Directory must be empty to use rm_directory')
+
+        if udf_path is not None and (iso_path is not None or joliet_path is not None):
+            if self.udf_root is None:
+                raise pycdlibexception.PyCdlibInvalidInput('Can only specify a UDF path for a UDF ISO')
+            if utils.normpath(udf_path) == b'/':
+                raise pycdlibexception.PyCdlibInvalidInput('Cannot remove base directory')
+            (udf_name, udf_parent) = self._udf_name_and_parent_from_path(utils.normpath(udf_path))
+            udf_fi_desc = udf_parent.find_file_ident_desc_by_name(udf_name)
+            if udf_fi_desc.is_dir() and udf_fi_desc.file_entry is not None and len(udf_fi_desc.file_entry.fi_descs) > 1:
+                raise pycdlibexception.PyCdlibInvalidInput('Directory must be empty to use rm_directory')
+
         num_bytes_to_remove = 0
 
         if iso_path is not None:
